@@ -24,6 +24,9 @@ pub struct NM {
     pub m: usize,
     pub layout: Layout,
     pub captured: bool,
+    /// the new side has a different item type (SymB) that compares with the old side's items
+    /// but hashes differently; raw callbacks on whole slices only
+    pub hetero: bool,
 }
 pub struct C15;
 
@@ -45,21 +48,24 @@ impl Prop for C15 {
         for layout in &bl {
             let (n, m) = layout_lens(layout, 0, 0);
             for captured in [false, true] {
-                v.push(NM { n, m, layout: *layout, captured });
+                v.push(NM { n, m, layout: *layout, captured, hetero: false });
             }
         }
         for layout in long_layouts(tier == Tier::Thorough) {
             let (n, m) = layout_lens(&layout, 0, 0);
             for captured in [false, true] {
-                v.push(NM { n, m, layout, captured });
+                v.push(NM { n, m, layout, captured, hetero: false });
             }
         }
         for n in 0..=max {
             for m in 0..=max {
                 for captured in [false, true] {
-                    v.push(NM { n, m, layout: PLAIN, captured });
+                    v.push(NM { n, m, layout: PLAIN, captured, hetero: false });
+                    if !captured {
+                        v.push(NM { n, m, layout: PLAIN, captured, hetero: true });
+                    }
                     if n + m <= 7 {
-                        v.push(NM { n, m, layout: Layout::Offset { off_o: 1, off_n: 2 }, captured });
+                        v.push(NM { n, m, layout: Layout::Offset { off_o: 1, off_n: 2 }, captured, hetero: false });
                     }
                 }
             }
@@ -72,7 +78,41 @@ impl Prop for C15 {
         // which old indices are reported Equal, and with which new index
         let mut paired: Vec<Option<usize>> = vec![None; s.n];
         let obs;
-        if s.captured {
+        if s.hetero {
+            let (o, nw) = match (&inp.old, &inp.new) {
+                (Seq::Slice(o), Seq::Slice(n)) => (o.clone(), n.iter().map(|x| crate::sym::SymB(*x)).collect::<Vec<_>>()),
+                _ => unreachable!(),
+            };
+            struct Rec(Vec<Call>);
+            impl algorithms::DiffHook for Rec {
+                type Error = ();
+                fn equal(&mut self, a: usize, b: usize, c: usize) -> Result<(), ()> {
+                    self.0.push(Call::Equal(a, b, c));
+                    Ok(())
+                }
+                fn delete(&mut self, a: usize, b: usize, c: usize) -> Result<(), ()> {
+                    self.0.push(Call::Delete(a, b, c));
+                    Ok(())
+                }
+                fn insert(&mut self, a: usize, b: usize, c: usize) -> Result<(), ()> {
+                    self.0.push(Call::Insert(a, b, c));
+                    Ok(())
+                }
+            }
+            let mut rec = Rec(vec![]);
+            algorithms::patience::diff(&mut rec, &o[..], 0..s.n, &nw[..], 0..s.m).unwrap();
+            for c in &rec.0 {
+                if let Call::Equal(oi, ni, len) = *c {
+                    for t in 0..len {
+                        claim!(oi + t < s.n && ni + t < s.m, "Equal call out of range: {:?}", rec.0);
+                        engine::must_hold(&F::eq(inp.old_items[oi + t].0, inp.new_items[ni + t].0), &format!("Equal({},{},{}) pairs unequal items (old and new of different types)", oi, ni, len));
+                        paired[oi + t] = Some(ni + t);
+                    }
+                }
+            }
+            engine::witness("paths_with_different_item_types");
+            obs = format!("{:?}", rec.0);
+        } else if s.captured {
             let ops = capture_diff(Algorithm::Patience, &inp.old, inp.or.clone(), &inp.new, inp.nr.clone());
             validate_ops(&ops, &inp.old, inp.or.clone(), &inp.new, inp.nr.clone(), OpsCheck::default());
             for op in &ops {
@@ -154,10 +194,10 @@ impl Prop for C15 {
         (s.n + s.m) as u64
     }
     fn shape_json(&self, s: &NM) -> Value {
-        json!({"n": s.n, "m": s.m, "layout": s.layout.to_json(), "captured": s.captured})
+        json!({"n": s.n, "m": s.m, "layout": s.layout.to_json(), "captured": s.captured, "different_item_types": s.hetero})
     }
     fn shape_from(&self, v: &Value) -> NM {
-        NM { n: v["n"].as_u64().unwrap() as usize, m: v["m"].as_u64().unwrap() as usize, layout: Layout::from_json(&v["layout"]), captured: v["captured"].as_bool().unwrap() }
+        NM { n: v["n"].as_u64().unwrap() as usize, m: v["m"].as_u64().unwrap() as usize, layout: Layout::from_json(&v["layout"]), captured: v["captured"].as_bool().unwrap(), hetero: v["different_item_types"].as_bool().unwrap_or(false) }
     }
     fn describe(&self, s: &NM, ints: &[i64], _b: &[bool]) -> Value {
         describe_inputs(s.n, s.m, s.layout, ints)
@@ -170,10 +210,10 @@ impl Prop for C15 {
                 "similar::algorithms::myers::diff_deadline over UniqueItem sequences and over the gaps",
                 "similar::capture_diff(Algorithm::Patience, ..) for the captured variant",
             ],
-            bounds: format!("n,m in 0..={} symbolic items, whole slices and offset lookups, raw callbacks and captured ops; plus block-structured inputs (up to 4 blocks of 2 items a side over 3 block types with all items of different types different; thorough also block lengths 1, 3 and 5 blocks), where the shape fixes the equality pattern; plus the long structured families of common.rs::long_layouts (about 30 (thorough 53) inputs of 40..600 items a side, e.g. one or two unique items moved across a body of 100..300 repeated items); the reference (which items are unique on both sides, longest in-order subset) is computed by the harness from solver-decided comparisons", match tier { Tier::Quick => 4, Tier::Thorough => 5 }),
+            bounds: format!("n,m in 0..={} symbolic items, whole slices and offset lookups, raw callbacks and captured ops, and (raw, whole slices) with a new side of a different item type that compares with the old side's items but hashes differently; plus block-structured inputs (up to 4 blocks of 2 items a side over 3 block types with all items of different types different; thorough also block lengths 1, 3 and 5 blocks), where the shape fixes the equality pattern; plus the long structured families of common.rs::long_layouts (about 30 (thorough 53) inputs of 40..600 items a side, e.g. one or two unique items moved across a body of 100..300 repeated items); the reference (which items are unique on both sides, longest in-order subset) is computed by the harness from solver-decided comparisons", match tier { Tier::Quick => 4, Tier::Thorough => 5 }),
             outside: "longer inputs; deadlines".into(),
             assumptions: vec!["constant Hash for symbolic items (lawful)".into()],
-            required_witnesses: vec!["paths_with_two_or_more_ordered_anchors", "paths_with_crossing_anchors", "long_structured_paths"],
+            required_witnesses: vec!["paths_with_two_or_more_ordered_anchors", "paths_with_crossing_anchors", "long_structured_paths", "paths_with_different_item_types"],
             rule: "one state = one explored path (equality pattern) of patience on one shape".into(),
         }
     }
@@ -639,7 +679,7 @@ impl Prop for C20 {
                 if alg == Algorithm::Lcs && n * m > 60_000 {
                     continue;
                 }
-                if matches!(layout, Layout::Long { pad: 0, .. }) {
+                if matches!(layout, Layout::Long { pad: 0, .. }) || matches!(layout, Layout::Long { pad, .. } if pad & 32 != 0) {
                     v.push(DetShape { alg, n, m, permuted: None, long: Some(layout) });
                 }
             }
@@ -651,10 +691,24 @@ impl Prop for C20 {
         // the symbolic items hash to a constant, also when a counterexample is replayed: an
         // item type whose Hash is coarser than its Eq is lawful, and the ops must not depend on it
         engine::keep_constant_hash_in_replay();
+        let mut pooled_ops: Option<Vec<DiffOp>> = None;
         let (old, mut new) = match s.long {
             Some(layout) => {
                 let inp = make_inputs(0, 0, layout);
                 engine::witness("long_structured_paths");
+                if matches!(inp.old, Seq::Pooled(_)) {
+                    // the same items behind lookups into one interned pool (equal items are the same
+                    // object in memory, on both sides), diffed at their range offsets
+                    let raw = similar::capture_diff(s.alg, &inp.old, inp.or.clone(), &inp.new, inp.nr.clone());
+                    let (so, sn) = (inp.or.start, inp.nr.start);
+                    pooled_ops = Some(raw.iter().map(|op| match *op {
+                        DiffOp::Equal { old_index, new_index, len } => DiffOp::Equal { old_index: old_index - so, new_index: new_index - sn, len },
+                        DiffOp::Delete { old_index, old_len, new_index } => DiffOp::Delete { old_index: old_index - so, old_len, new_index: new_index - sn },
+                        DiffOp::Insert { old_index, new_index, new_len } => DiffOp::Insert { old_index: old_index - so, new_index: new_index - sn, new_len },
+                        DiffOp::Replace { old_index, old_len, new_index, new_len } => DiffOp::Replace { old_index: old_index - so, old_len, new_index: new_index - sn, new_len },
+                    }).collect());
+                    engine::witness("interned_pool_lookup_paths");
+                }
                 (inp.old_items.clone(), inp.new_items.clone())
             }
             None => (Sym::fresh_vec(s.n), Sym::fresh_vec(s.m)),
@@ -679,6 +733,9 @@ impl Prop for C20 {
         // repeated call: fresh randomly seeded hash maps inside, same decisions => same ops
         let ops2 = capture_diff_slices(s.alg, &old, &new);
         claim!(ops == ops2, "two calls on the same inputs returned different ops: {:?} vs {:?}", ops, ops2);
+        if let Some(p) = &pooled_ops {
+            claim!(*p == ops, "the same items behind lookups into an interned pool (shifted ranges) give different ops than as plain slices: {:?} vs {:?}", p, ops);
+        }
         // third call on another thread (fresh thread-local hasher keys); only natively,
         // the symbolic engine is thread-local
         if ops.iter().any(|o| o.tag() != DiffTag::Equal) {
@@ -731,10 +788,10 @@ impl Prop for C20 {
                 "similar::capture_diff_slices -> Compact<Replace<Capture>> + myers/patience/lcs",
                 "similar::algorithms::utils::unique (std HashMap, RandomState) inside patience",
             ],
-            bounds: format!("3 algorithms x n,m in 0..={} (plus inputs of 32 / 48 (thorough up to 96) pairwise different items with three swapped adjacent pairs and four replaced items, 4 variants; plus the long structured families of common.rs::long_layouts: about 24 (thorough 47) inputs of 40..600 items a side, e.g. 300 different items a side with 1 or 3 common interior items); on every explored path (= equality pattern): two symbolic executions, one native re-execution of the Sym items with value hashing, plus the path's model instantiated as i64, as order-preserving String relabelling and under seven affine relabellings v -> a*v+b, diffed natively (also on a second thread); all must return the path's ops", match tier { Tier::Quick => 4, Tier::Thorough => 5 }),
+            bounds: format!("3 algorithms x n,m in 0..={} (plus inputs of 32 / 48 (thorough up to 96) pairwise different items with three swapped adjacent pairs and four replaced items, 4 variants; plus the long structured families of common.rs::long_layouts: about 24 (thorough 47) inputs of 40..600 items a side, e.g. 300 different items a side with 1 or 3 common interior items); on every explored path (= equality pattern): two symbolic executions, one native re-execution of the Sym items with value hashing, plus the path's model instantiated as i64, as order-preserving String relabelling and under seven affine relabellings v -> a*v+b, diffed natively (also on a second thread); all must return the path's ops; ten of the structured inputs are also diffed through lookups into one interned pool shared by both sides (equal items are the same object in memory) at shifted range offsets", match tier { Tier::Quick => 4, Tier::Thorough => 5 }),
             outside: "quantification over hasher seeds and thread schedules is NOT decided (they are not inputs a solver controls here: each execution draws fresh RandomState keys, that is all); the str-vs-[u8] text clause is reduced to C06's tokenizer equivalence plus this relabelling clause".into(),
             assumptions: vec!["a symbolic path stands for every input with its equality/order pattern because Sym carries no value".into()],
-            required_witnesses: vec!["paths_with_changes", "large_permuted_paths", "long_structured_paths"],
+            required_witnesses: vec!["paths_with_changes", "large_permuted_paths", "long_structured_paths", "interned_pool_lookup_paths"],
             rule: "one state = one equality pattern (explored path); 5 executions of the real code per state".into(),
         }
     }
